@@ -760,6 +760,18 @@ func (h *H) exec(op string) string {
 		h.css.PushMsg(&msgs.PushMsg{Ids: []uint32{c.sess.GetId()}, Route: "onNews", Data: []byte(`{"n":1}`)})
 		synctest.Wait()
 		return h.obs(k, "")
+	case "qfill":
+		// a backlogged owner: N filler closures in its scheduler queue (never to within 9 of its capacity:
+		// the scenario's own posts must not find it full)
+		n := hx.KVInt(ws, "n")
+		if n <= 0 || len(h.sc.GetChanTask())+n > sche.QueueSize-9 {
+			return "none"
+		}
+		for i := 0; i < n; i++ {
+			h.sc.Post(func() {})
+		}
+		synctest.Wait()
+		return h.obs(0, "")
 	case "mpush":
 		// one PushMsg for several ids: cK = the id connection K has (0 before its add was processed), u<n> = an id nobody has
 		v, _ := hx.KV(ws, "ids")
@@ -1140,6 +1152,41 @@ func TestRun(t *testing.T) {
 					x.Count("case:id-wrap")
 				}
 				run(reset)
+				if x.R.Intn(15) == 0 {
+					// backlogged owner: its queue within 10 of capacity while one connection lives its whole life
+					x.Count("case:owner-backlog")
+					run(fmt.Sprintf("qfill n=%d", sche.QueueSize-10+x.R.Intn(2)))
+					run("open c=1")
+					left := 5
+					first := true
+					for left > 0 && x.R.Intn(4) != 0 {
+						k := 1 + x.R.Intn(3)
+						if k > left {
+							k = left
+						}
+						left -= k
+						pk := g.dataPkts(1, k)
+						if first {
+							pk = append([]string{"hs1", "ack"}, pk...)
+							first = false
+						}
+						run("in c=1 it=f:" + strings.Join(pk, ","))
+						run([]string{"rd c=1", "rd c=1", "rds c=1"}[x.R.Intn(3)])
+						run("rd c=1")
+					}
+					switch x.R.Intn(4) {
+					case 0:
+						run("kick c=1")
+					case 1:
+						run("in c=1 it=eof")
+						run("rd c=1")
+					case 2:
+						run("adv dt=30000")
+					}
+					run("drain")
+					run("end")
+					continue
+				}
 				maxConn := []int{1, 1, 1, 2, 2, 3}[x.R.Intn(6)]
 				x.Count(fmt.Sprintf("case:conns=%d", maxConn))
 				length := 4 + x.R.Intn(36)
